@@ -340,3 +340,103 @@ func TestC08(t *testing.T) {
 func TestC08Enum(t *testing.T) {
 	RunEnum(t, "C08", c08Enumerated(), execC08, ntC08)
 }
+
+// ---------------------------------------------------------------------------
+// server side: once the peer's connections are gone, what the server held for them is released
+
+type C08SrvCase struct {
+	Legacy  bool `json:"legacy"`
+	Streams int  `json:"streams"` // listening streams / legacy sessions opened and then abandoned
+	Calls   int  `json:"calls"`   // tool calls in progress (blocked in the handler) when their peer leaves
+	Reopen  bool `json:"reopen"`  // Streamable: every session's stream is replaced once before the peers leave
+}
+
+func execC08Srv(c C08SrvCase) *Failure {
+	before := LibGoroutines()
+	mode := ModeSS
+	if c.Legacy {
+		mode = ModeLegacy
+	}
+	w := NewWorld(mode, RegSpec{}, WorldOpt{})
+	defer w.Close()
+	var inHandler, released atomic.Int64
+	RegistrarOf(serverOf(w)).RegisterTool(mcp.NewTool("block"), func(ctx context.Context, req *mcp.CallToolRequest) (*mcp.CallToolResult, error) {
+		inHandler.Add(1)
+		select {
+		case <-ctx.Done():
+			released.Add(1)
+			return nil, ctx.Err()
+		case <-time.After(20 * time.Second):
+			return mcp.NewTextResult("timeout"), nil
+		}
+	})
+	var h = w.handlerOf()
+	var lives []*LiveResp
+	where := fmt.Sprintf("legacy=%v streams=%d calls=%d reopen=%v", c.Legacy, c.Streams, c.Calls, c.Reopen)
+	for i := 0; i < c.Streams; i++ {
+		if c.Legacy {
+			lr := StartLive(h, "GET", "http://verif/sse", map[string]string{"Accept": "text/event-stream"}, nil, nil)
+			lr.WaitEvents(1, Patience())
+			lives = append(lives, lr)
+			continue
+		}
+		ex := w.Direct("POST", "/mcp", map[string]string{"Content-Type": "application/json", "Accept": "application/json"}, InitRequest("0", "2025-03-26"))
+		sid := ex.Header.Get("Mcp-Session-Id")
+		n := 1
+		if c.Reopen {
+			n = 2
+		}
+		for k := 0; k < n; k++ {
+			lr := StartLive(h, "GET", "http://verif/mcp", map[string]string{"Accept": "text/event-stream", "Mcp-Session-Id": sid}, nil, nil)
+			lr.WaitFlushedHeader(Patience())
+			lives = append(lives, lr)
+		}
+		for k := 0; k < c.Calls; k++ {
+			lr := StartLive(h, "POST", "http://verif/mcp", map[string]string{"Content-Type": "application/json", "Accept": "application/json, text/event-stream", "Mcp-Session-Id": sid},
+				[]byte(fmt.Sprintf(`{"jsonrpc":"2.0","id":%d,"method":"tools/call","params":{"name":"block","arguments":{}}}`, k+1)), nil)
+			lives = append(lives, lr)
+		}
+	}
+	want := c.Streams
+	deadline := time.Now().Add(Patience())
+	for mcp.VerifStreamCount(serverOf(w)) < want && time.Now().Before(deadline) {
+		time.Sleep(200 * time.Microsecond)
+	}
+	if !c.Legacy {
+		for inHandler.Load() < int64(c.Streams*c.Calls) && time.Now().Before(deadline) {
+			time.Sleep(200 * time.Microsecond)
+		}
+	}
+	// every peer goes away
+	for _, lr := range lives {
+		lr.PeerGone()
+	}
+	for _, lr := range lives {
+		if !lr.WaitReturned(Patience()) {
+			return TimingFailf("C08/server/handler-outlives-peer", "%s: a handler is still running after its peer's connection was gone", where)
+		}
+	}
+	deadline = time.Now().Add(Patience())
+	for mcp.VerifStreamCount(serverOf(w)) != 0 && time.Now().Before(deadline) {
+		time.Sleep(time.Millisecond)
+	}
+	if n := mcp.VerifStreamCount(serverOf(w)); n != 0 {
+		return TimingFailf("C08/server/stream-entries-left", "%s: %d stream / session entries are still registered after every peer has gone", where, n)
+	}
+	if !c.Legacy && released.Load() != int64(c.Streams*c.Calls) {
+		return TimingFailf("C08/server/handler-context-not-cancelled", "%s: %d of %d handlers in progress saw their context end", where, released.Load(), c.Streams*c.Calls)
+	}
+	if d := WaitNoLeak(before, Patience()); len(d) > 0 {
+		return TimingFailf("C08/server/goroutine-leak/"+strings.SplitN(d[0], " (", 2)[0], "%s: library goroutines left after every peer has gone: %v", where, d)
+	}
+	return nil
+}
+
+func TestC08Server(t *testing.T) {
+	RunProp(t, Prop[C08SrvCase]{ID: "C08",
+		Gen: func(t *rapid.T) C08SrvCase {
+			return C08SrvCase{Legacy: rapid.Bool().Draw(t, "legacy"), Streams: rapid.IntRange(1, 6).Draw(t, "streams"), Calls: rapid.IntRange(0, 3).Draw(t, "calls"), Reopen: rapid.Bool().Draw(t, "reopen")}
+		},
+		Exec: execC08Srv,
+		NT:   func(c C08SrvCase) (bool, []string) { return c.Streams >= 2 || c.Calls > 0, []string{fmt.Sprintf("legacy=%v", c.Legacy)} }})
+}
